@@ -177,21 +177,28 @@ def run(ctx):
         if kind in ("assign", "calldest", "mutref"):
             ctx.ob("C05.3", "threshold-write|%s" % g.id, "the threshold is changed only by with_chunked_threshold", g.id == wct.id, g.loc(bb))
 
+    import rules_C19
+    rules_C19.conv_fields(ctx, facts, "C05.3")
+
     # ---- C05.4 TE preference
-    pref = facts.find_fns(r"^response::choose_transfer_encoding::\{closure#2\}$")
-    sorter = facts.find_fns(r"^response::choose_transfer_encoding::\{closure#2\}::\{closure#0\}$")
-    ctx.require(pref and sorter, "C05.4: TE preference closures not found")
-    p, sc = pref[0], sorter[0]
+    # bound by role: the closure that calls parse_header_value and sorts, and the comparator it passes to sort_by
+    pref = [g for g in facts.find_fns(r"^response::choose_transfer_encoding::\{closure") if g.call_blocks(lambda t: call_matches(t, r"<impl \[T\]>::sort(_unstable)?_by$"))]
+    ctx.require(len(pref) == 1, "C05.4: the closure sorting the TE preferences was not found")
+    p = pref[0]
+    sb0 = [(bb, t) for bb, t in p.calls() if call_matches(t, r"<impl \[T\]>::sort(_unstable)?_by$")]
+    so = p.origin(sb0[0][1]["args"][1])
+    ctx.require(so[0] == "agg" and so[1] in facts.fns, "C05.4: sort comparator is not a closure")
+    sc = facts.fns[so[1]]
     ctx.touch(p); ctx.touch(sc)
     o = sc.origin_place({"l": 0, "p": []})
-    pcs = [x for x in origin_calls(o) if re.search(r"partial_cmp$", x[1])]
+    pcs = [x for x in origin_calls(o) if re.search(r"(partial_cmp|total_cmp|::cmp)$", x[1])]
     ok = False
     if pcs:
         a, b = pcs[0][2]
         sa, sb = origin_str(a), origin_str(b)
         ok = "arg3" in sa and "arg2" in sb and sa.endswith(".1") and sb.endswith(".1")
     ctx.ob("C05.4", "%s|descending-q" % sc.id, "codings are sorted by descending q (the comparator compares b.q with a.q)", ok, "%s:%d" % (sc.file, sc.line), origin_str(o))
-    sb_ = p.call_blocks(lambda t: call_matches(t, r"<impl \[T\]>::sort_by$|sort_by::<"))
+    sb_ = p.call_blocks(lambda t: call_matches(t, r"<impl \[T\]>::sort_by$"))
     ctx.ob("C05.4", "%s|stable-sort" % p.id, "ties keep list order (stable sort_by)", len(sb_) == 1, "%s:%d" % (p.file, p.line))
     skip_ok = False
     for bb in sorted(p.live_blocks()):
